@@ -122,6 +122,9 @@ def run(m: Model, r: Report, tier: str) -> None:
     if n_cons < 2:
         raise AnalysisError(f"only {n_cons} consumers of handle_request found")
 
+    from sa import transport_rules as _trl
+    _trl.line_needs_delimiter(m, r, "R4")
+
     # ---------------------------------------------------------------- R5
     for q in (f"{SRV}.TCPUDSServerTransport.run", f"{SRV}.UnixUDSServerTransport.run"):
         try:
